@@ -1024,4 +1024,93 @@ theorem Build_matches_source (P : Par) (enc cfg : Val) (level outs errs : List V
   run_of_fin (X P) _ _ Gen.TransOpen.Build _ _ _ _ rfl rfl
     (Build_exec_matches_source P enc cfg level outs errs dev dc ds samp ifs opts ev fl0 hN hC hL hO hE h1 h2 h3 h4 h5 fuel)
 
+/-! ### the composed source IS the hand model `OpenBuild.build` -/
+
+/-- the sinks of the paths that opened, in path order -/
+def opened (P : Par) (ps : List Val) : List Val := (ps.filter (opens P)).map fun p => .list (P.newSink p).1
+def sinkEv (ps : List Val) : List Val := ps.map fun p => .list [TransOpen.nm "sinkRegistry.newSink", p]
+
+theorem openR_facts (P : Par) (ps ev : List Val) :
+    (openR P ps ev).e.isEmpty = (ps.map (opens P)).all id ∧ (openR P ps ev).c = opened P ps ∧
+    (openR P ps ev).w = opened P ps ∧ (openR P ps ev).ev = ev ++ sinkEv ps := by
+  have h := open_is_openAll P ps ev
+  simp only at h
+  obtain ⟨h1, h2, h3, _, _, _, h7⟩ := h
+  refine ⟨?_, h2, by rw [h3, h2]; rfl, h7⟩
+  rw [h1]; simp only [OpenBuild.openAll]; split <;> simp_all
+
+theorem openAll_facts (outs : List Bool) :
+    (OpenBuild.openAll outs).err = !(outs.all id) ∧ (OpenBuild.openAll outs).opened.length = (outs.filter id).length ∧
+    (OpenBuild.openAll outs).closed.length = (if outs.all id then 0 else (outs.filter id).length) ∧
+    (OpenBuild.openAll outs).returned.length = (if outs.all id then (outs.filter id).length else 0) := by
+  simp only [OpenBuild.openAll]
+  split <;> simp_all [openedIdx_length]
+
+theorem opened_length (P : Par) (ps : List Val) : (opened P ps).length = ((ps.map (opens P)).filter id).length := by
+  simp [opened, List.filter_map, Function.comp_def]
+
+/-- **Build_is_build**: with `outs[i]` / `errs[i]` = "path i opens", the level present iff the field is not the zero
+    value, and the encoder stage failing iff `newEncoder` returns an error, the translated `Build` stops at the stage the
+    hand model `OpenBuild.build` says, returns a logger exactly at `.done`, and its recorded calls are the model's
+    opened / closed sets: nothing is opened before the encoder and the level are validated; a failing output list closes
+    what it opened; a failing error-output list closes what it opened AND the returned close function of the outputs
+    (holding all of them) is called -/
+theorem Build_is_build (P : Par) (enc cfg : Val) (level outs errs : List Val) (dev dc ds : Bool) (samp ifs opts ev : List Val) :
+    let B := OpenBuild.build ⟨if (P.newEncoder enc cfg).2.isEmpty then .ok else .ctorErr, !level.isEmpty,
+      outs.map (opens P), errs.map (opens P)⟩
+    let S := buildSpec P enc cfg level outs errs dev dc ds samp ifs opts ev
+    (B.stage = .done ↔ S.1[1]? = some (.list [])) ∧
+    S.2 = ev ++ [.list [TransOpen.nm "newEncoder", enc, cfg]] ++
+      (match B.stage with
+       | .encoder => []
+       | .level => []
+       | .out => sinkEv outs ++ closeEv (opened P outs)
+       | .errout => sinkEv outs ++ sinkEv errs ++ closeEv (opened P errs) ++
+           [.list [TransOpen.nm "Closure.call", .list [closeText, .list (opened P outs)]]]
+       | .done => sinkEv outs ++ sinkEv errs) ∧
+    B.openedOut.length = (match B.stage with | .encoder => 0 | .level => 0 | _ => (opened P outs).length) ∧
+    B.closedOut.length = (match B.stage with | .out => (opened P outs).length | .errout => (opened P outs).length | _ => 0) ∧
+    B.openedErr.length = (match B.stage with | .errout => (opened P errs).length | .done => (opened P errs).length | _ => 0) ∧
+    B.closedErr.length = (match B.stage with | .errout => (opened P errs).length | _ => 0) := by
+  intro B S
+  have fo := fun ev => openR_facts P outs ev
+  have fe := fun ev => openR_facts P errs ev
+  have ao := openAll_facts (outs.map (opens P))
+  have ae := openAll_facts (errs.map (opens P))
+  have lo := opened_length P outs
+  have le := opened_length P errs
+  obtain ⟨ao1, ao2, ao3, ao4⟩ := ao
+  obtain ⟨ae1, ae2, ae3, ae4⟩ := ae
+  simp only [B, S, OpenBuild.build, buildSpec, openSinksSpec]
+  cases hn : (P.newEncoder enc cfg).2.isEmpty
+  · cases hx : (P.newEncoder enc cfg).2 with
+    | nil => simp [hx] at hn
+    | cons e0 es => simp
+  · cases level with
+    | nil => simp [errV]
+    | cons l0 ls =>
+      obtain ⟨fo1, fo2, fo3, fo4⟩ := fo (ev ++ [.list [TransOpen.nm "newEncoder", enc, cfg]])
+      generalize openR P outs (ev ++ [.list [TransOpen.nm "newEncoder", enc, cfg]]) = O at fo1 fo2 fo3 fo4 ⊢
+      obtain ⟨w, c, e, ev1⟩ := O
+      simp only at fo1 fo2 fo3 fo4
+      subst fo2 fo3 fo4
+      obtain ⟨fe1, fe2, fe3, fe4⟩ := fe (ev ++ [.list [TransOpen.nm "newEncoder", enc, cfg]] ++ sinkEv outs)
+      generalize openR P errs (ev ++ [.list [TransOpen.nm "newEncoder", enc, cfg]] ++ sinkEv outs) = E at fe1 fe2 fe3 fe4 ⊢
+      obtain ⟨w', c', e', ev2⟩ := E
+      simp only at fe1 fe2 fe3 fe4
+      subst fe2 fe3 fe4
+      cases e with
+      | cons e0 es =>
+        have ho : (outs.map (opens P)).all id = false := by rw [← fo1]; rfl
+        simp [ho, ao1, ao2, ao3, lo, List.append_assoc]
+      | nil =>
+        have ho : (outs.map (opens P)).all id = true := by rw [← fo1]; rfl
+        cases e' with
+        | cons e0 es =>
+          have he : (errs.map (opens P)).all id = false := by rw [← fe1]; rfl
+          simp [ho, he, ao1, ae1, ao2, ae2, ao3, ae3, ao4, lo, le, List.append_assoc]
+        | nil =>
+          have he : (errs.map (opens P)).all id = true := by rw [← fe1]; rfl
+          simp [ho, he, ao1, ae1, ao2, ae2, ao3, ae3, ao4, lo, le, List.append_assoc]
+
 end ZapVerif.C19
